@@ -596,13 +596,14 @@ def xm3_models(shard):
     """-> iterable of lists of sequences (one list = one model)."""
     from gen import xrefmodels as X
     n = len(X.ALPHABET)
-    if shard[0] == "base":
+    if shard[0] == "base":                  # simplest first: the empty body, every single item, every extended single item
         yield [()]
+        for a in range(n):
+            yield [(a,)]
         for k in range(len(X.ALPHABET_X)):
             yield [(-k - 1,)]
     elif shard[0] == "pairs":
         a = shard[1]
-        yield [(a,)]
         for b in range(n):
             yield [(a, b)]
     else:
@@ -634,7 +635,12 @@ def describe(seq):
     out = []
     for c in seq:
         op, t = X.item_of(c)
-        out.append("%s %s" % (op, "->".join(map(str, t[:2])) + "".join(map(str, t[2:3])) if isinstance(t, tuple) else "%s %r" % (op, t)))
+        if X.kind_of(op) == "method":
+            out.append("%s %s->%s%s" % (op, t[0], t[1], X.mdesc(t[2], t[3])))
+        elif X.kind_of(op) == "field":
+            out.append("%s %s->%s %s" % ((op,) + t))
+        else:
+            out.append("%s %r" % (op, t))
     return out
 
 
@@ -650,7 +656,8 @@ def explore_xm3(ctx, shard, judge, acc, orders, relevant, outcome):
             except RefMismatch as e:
                 acc.harness_error(str(e))
                 continue
-            acc.count("models")
+            if sf == orders[0]:
+                acc.count("models")
             acc.count("analyses")
             for k, seq in enumerate(seqs):
                 nt = any(relevant(X.item_of(c)) for c in seq)
@@ -674,7 +681,7 @@ def explore_xm3(ctx, shard, judge, acc, orders, relevant, outcome):
                             break
                 w["program"] = [describe(s) for s in w["seqs"]][:3]
                 acc.violation(key, w, msg)
-            if len(seqs) == 1 and len(seqs[0]) == 2 and seqs[0][0] == seqs[0][1] and relevant(X.item_of(seqs[0][0])):
+            if sf == orders[0] and len(seqs) == 1 and len(seqs[0]) == 2 and seqs[0][0] == seqs[0][1] and relevant(X.item_of(seqs[0][0])):
                 acc.sample({"A.m0": describe(seqs[0]), "note": "same target at two offsets"})
     for k, v in stats.items():
         acc.count(k, v)
